@@ -46,9 +46,10 @@ type C12LPeer struct {
 
 // C12LPlan is one live scenario.
 type C12LPlan struct {
-	Blocks int        `json:"blocks"` // initial chain
-	Mine   int        `json:"mine"`   // blocks the trusted peer mines while the untrusted peers act
-	Peers  []C12LPeer `json:"peers"`
+	Blocks      int        `json:"blocks"`                  // initial chain
+	Mine        int        `json:"mine"`                    // blocks the trusted peer mines while the untrusted peers act
+	MineDelayMs int        `json:"mine_delay_ms,omitempty"` // wait before the first mined block
+	Peers       []C12LPeer `json:"peers"`
 }
 
 type c12lResult struct {
@@ -72,6 +73,18 @@ type liveUntrusted struct {
 	doneOnce      sync.Once
 	noRead        bool
 	sawGetHeaders bool
+	lastAct       string
+	conn          net.Conn
+	queueLen      func() int
+}
+
+func (u *liveUntrusted) closeConn() {
+	u.mu.Lock()
+	c := u.conn
+	u.mu.Unlock()
+	if c != nil {
+		_ = c.Close()
+	}
 }
 
 func (u *liveUntrusted) finish() { u.doneOnce.Do(func() { close(u.done) }) }
@@ -103,6 +116,9 @@ func (u *liveUntrusted) send(c net.Conn, m wire.Message) error {
 
 func (u *liveUntrusted) serve(c net.Conn) {
 	defer u.finish()
+	u.mu.Lock()
+	u.conn = c
+	u.mu.Unlock()
 	scriptStarted := false
 	var wmu sync.Mutex // one writer at a time
 	write := func(m wire.Message) error {
@@ -122,21 +138,19 @@ func (u *liveUntrusted) serve(c net.Conn) {
 			}
 			continue
 		}
-		_ = c.SetReadDeadline(time.Now().Add(200 * time.Millisecond))
+		// blocking read: the connection is closed by the test when the plan is over
 		_, msg, _, err := wire.ReadMessageN(c, wire.ProtocolVersion, wire.BitcoinNet(bitcoin.MainNet))
 		if err != nil {
-			if ne, ok := err.(net.Error); ok && ne.Timeout() {
-				select {
-				case <-u.done:
-					return
-				default:
-					continue
-				}
-			}
 			if me, ok := err.(*wire.MessageError); ok && me.Type == wire.MessageErrorUnknownCommand {
 				continue
 			}
+			if os.Getenv("VERIF_C12L_DEBUG") != "" {
+				fmt.Fprintf(os.Stderr, "DEBUG untrusted %s serve ends after act %q: %v\n", u.ln.Addr(), u.lastAct, err)
+			}
 			return
+		}
+		if os.Getenv("VERIF_C12L_DEBUG") != "" {
+			fmt.Fprintf(os.Stderr, "DEBUG untrusted %s got %s\n", u.ln.Addr(), msg.Command())
 		}
 		switch m := msg.(type) {
 		case *wire.MsgVersion:
@@ -211,12 +225,15 @@ func (u *liveUntrusted) script(c net.Conn, write func(wire.Message) error) {
 		return append(hdr[:], payload...)
 	}
 	mainMagic := uint32(wire.BitcoinNet(bitcoin.MainNet))
-	for _, a := range u.spec.Acts {
+	for ai, a := range u.spec.Acts {
 		select {
 		case <-u.done:
 			return
 		default:
 		}
+		u.mu.Lock()
+		u.lastAct = fmt.Sprintf("%d:%s", ai, a.Op)
+		u.mu.Unlock()
 		switch a.Op {
 		case "sleep":
 			time.Sleep(time.Duration(20+a.N%200) * time.Millisecond)
@@ -234,6 +251,54 @@ func (u *liveUntrusted) script(c net.Conn, write func(wire.Message) error) {
 					return
 				}
 			}
+		case "inv-shared":
+			// txids from a space shared by all peers of the plan: announced by several, delivered by none
+			inv := wire.NewMsgInv()
+			for i := 0; i < 1+a.N%2000; i++ {
+				var h bitcoin.Hash32
+				binary.LittleEndian.PutUint64(h[:8], uint64(i))
+				h[31] = 0x55
+				_ = inv.AddInvVect(wire.NewInvVect(wire.InvTypeTx, &h))
+			}
+			if write(inv) != nil {
+				return
+			}
+		case "small-invs":
+			// many one-item announcements: each is answered by a separate request message
+			for k := 0; k < 1+a.N%400; k++ {
+				inv := wire.NewMsgInv()
+				var h bitcoin.Hash32
+				binary.LittleEndian.PutUint64(h[:8], uint64(k)+uint64(a.K)<<32)
+				h[31] = 0x66
+				_ = inv.AddInvVect(wire.NewInvVect(wire.InvTypeTx, &h))
+				if write(inv) != nil {
+					return
+				}
+			}
+		case "fill-queue":
+			// one-item announcements until the node has queued a.N request messages for this peer
+			// (the node-side queue length is read white-box: it only steers the script)
+			target := 60 + a.N%40
+			for k := 0; k < 3000; k++ {
+				if u.queueLen != nil && u.queueLen() >= target {
+					break
+				}
+				inv := wire.NewMsgInv()
+				var h bitcoin.Hash32
+				binary.LittleEndian.PutUint64(h[:8], uint64(k)+uint64(a.K)<<32)
+				h[31] = 0x44
+				_ = inv.AddInvVect(wire.NewInvVect(wire.InvTypeTx, &h))
+				if write(inv) != nil {
+					return
+				}
+				if k%20 == 19 {
+					time.Sleep(5 * time.Millisecond)
+				}
+			}
+		case "wait-window":
+			time.Sleep(3300 * time.Millisecond) // longer than the tx request window
+		case "ping":
+			_ = write(wire.NewMsgPing(uint64(a.N)))
 		case "offer-tx":
 			if len(u.own) > 0 {
 				tx := u.own[a.N%len(u.own)]
@@ -380,6 +445,7 @@ func c12lRun(plan *C12LPlan) (res c12lResult) {
 		uns = append(uns, u)
 		go u.acceptLoop()
 		defer ln.Close()
+		defer u.closeConn()
 		defer u.finish()
 		addr := ln.Addr().String()
 		if _, err := peerRepo.Add(ctx, addr); err != nil {
@@ -405,6 +471,19 @@ func c12lRun(plan *C12LPlan) (res c12lResult) {
 	h := &liveHandler{}
 	node.RegisterHandler(h)
 	_ = node.SubscribePushDatas(ctx, subUniverse)
+	for _, u := range uns {
+		addr := u.ln.Addr().String()
+		u.queueLen = func() int {
+			node.untrustedLock.Lock()
+			defer node.untrustedLock.Unlock()
+			for _, un := range node.untrustedNodes {
+				if un.address == addr {
+					return len(un.outgoing.Channel)
+				}
+			}
+			return -1
+		}
+	}
 	runDone := make(chan error, 1)
 	go func() { runDone <- node.Run(ctx) }()
 	stopped := false
@@ -481,6 +560,9 @@ func c12lRun(plan *C12LPlan) (res c12lResult) {
 			lp.write(c, out)
 		}
 	}
+	if plan.MineDelayMs > 0 {
+		time.Sleep(time.Duration(plan.MineDelayMs) * time.Millisecond)
+	}
 	for _, b := range toMine {
 		time.Sleep(120 * time.Millisecond)
 		mine(b)
@@ -489,7 +571,7 @@ func c12lRun(plan *C12LPlan) (res c12lResult) {
 	for _, u := range uns {
 		select {
 		case <-u.done:
-		case <-time.After(6 * time.Second):
+		case <-time.After(12 * time.Second):
 			flags["script-timeout"] = true
 		}
 	}
@@ -501,7 +583,17 @@ func c12lRun(plan *C12LPlan) (res c12lResult) {
 		if u.noRead {
 			flags["peer-stopped-reading"] = true
 		}
+		if os.Getenv("VERIF_C12L_DEBUG") != "" {
+			flags["dbg: last act "+u.lastAct] = true
+		}
 		u.mu.Unlock()
+	}
+	if os.Getenv("VERIF_C12L_DEBUG") != "" {
+		node.untrustedLock.Lock()
+		for _, un := range node.untrustedNodes {
+			flags[fmt.Sprintf("dbg: queue %d tracked %d active %v", len(un.outgoing.Channel), un.txTracker.VerifTracked(), un.IsActive())] = true
+		}
+		node.untrustedLock.Unlock()
 	}
 	// (1) the node still follows the trusted peer
 	if !waitFor(8*time.Second, func() bool {
@@ -562,7 +654,33 @@ func describeC12L(p *C12LPlan) string {
 }
 
 func genC12L(t *rapid.T) *C12LPlan {
-	p := &C12LPlan{Blocks: rapid.IntRange(2, 9).Draw(t, "blocks"), Mine: rapid.IntRange(2, 5).Draw(t, "mine")}
+	// the node's header request to an untrusted peer starts 6 blocks below its tip: on shorter chains it
+	// names the tip itself and an honest peer has nothing to answer, so most plans use longer chains
+	p := &C12LPlan{Blocks: rapid.SampledFrom([]int{3, 7, 8, 9, 10, 12, 14}).Draw(t, "blocks"), Mine: rapid.IntRange(2, 5).Draw(t, "mine")}
+	if rapid.IntRange(0, 5).Draw(t, "profile") == 0 {
+		p.Blocks = rapid.IntRange(8, 14).Draw(t, "pblocks")
+		// back-pressure profile: one peer announces txids and never delivers them; a second one
+		// announces the same ones, stops reading, makes the node queue many requests for it, and shows
+		// activity again after the request window has passed; the trusted peer mines afterwards
+		shared := rapid.IntRange(1, 1999).Draw(t, "shared")
+		a := C12LPeer{Chain: "same", Acts: []C12LAct{{Op: "inv-shared", N: shared}, {Op: "sleep", N: 150}, {Op: "wait-window"}, {Op: "sleep", N: 199}}}
+		b := C12LPeer{Chain: "same", Acts: []C12LAct{{Op: "sleep", N: 100}, {Op: "inv-shared", N: shared}}}
+		if rapid.Bool().Draw(t, "stopfirst") {
+			b.Acts = append(b.Acts, C12LAct{Op: "stop-reading"})
+		}
+		for k, c := 0, rapid.IntRange(0, 16).Draw(t, "big"); k < c; k++ {
+			b.Acts = append(b.Acts, C12LAct{Op: "inv-flood", N: 49999 - k, K: 0})
+		}
+		fill := C12LAct{Op: "small-invs", N: rapid.IntRange(50, 399).Draw(t, "small"), K: 1}
+		if rapid.Bool().Draw(t, "fill") {
+			fill = C12LAct{Op: "fill-queue", N: rapid.IntRange(0, 39).Draw(t, "target"), K: 2}
+		}
+		b.Acts = append(b.Acts, C12LAct{Op: "stop-reading"}, fill,
+			C12LAct{Op: "wait-window"}, C12LAct{Op: "ping", N: 1}, C12LAct{Op: "ping", N: 2}, C12LAct{Op: "sleep", N: 199})
+		p.Peers = []C12LPeer{a, b}
+		p.MineDelayMs = rapid.SampledFrom([]int{0, 3000, 4500}).Draw(t, "minedelay")
+		return p
+	}
 	for i, n := 0, rapid.IntRange(1, 3).Draw(t, "peers"); i < n; i++ {
 		ps := C12LPeer{Chain: rapid.SampledFrom([]string{"same", "same", "same", "alien", "mute"}).Draw(t, "chain")}
 		for k, c := 0, rapid.IntRange(1, 7).Draw(t, "acts"); k < c; k++ {
@@ -575,7 +693,7 @@ func genC12L(t *rapid.T) *C12LPlan {
 	return p
 }
 
-const c12lRule = "live plans: real Run and real UntrustedNode.Run over loopback sockets; 1-3 scripted untrusted peers per plan (on the node's chain, on an alien chain, or never answering the header request) run generated scripts of inventory floods (up to 6 x 50 000 items), offered and pushed transactions only they know, blocks carrying the header of a block the trusted peer is about to announce with a forged body, headers of a longer fork, address floods, garbage frames (bad checksum, bad magic, absurd length, random bytes, half a message then close, unparsable payload), stopping to read, closing; meanwhile the trusted peer mines 2-5 blocks; each batch runs in a child process; oracle: the node process survives, reaches the trusted peer's tip within 8 s after the scripts, holds exactly the trusted chain, delivers nothing that only an unverified peer supplied, and reports nothing only an untrusted peer supplied as safe or confirmed; non-trivial = an untrusted peer got as far as the header request; distinct by plan hash"
+const c12lRule = "live plans: real Run and real UntrustedNode.Run over loopback sockets; 1-3 scripted untrusted peers per plan (on the node's chain, on an alien chain, or never answering the header request) run generated scripts of inventory floods (up to 6 x 50 000 items), offered and pushed transactions only they know, blocks carrying the header of a block the trusted peer is about to announce with a forged body, headers of a longer fork, address floods, garbage frames (bad checksum, bad magic, absurd length, random bytes, half a message then close, unparsable payload), stopping to read, closing; one plan in six is a two-peer back-pressure profile (announce shared txids and never deliver, stop reading, make the node queue hundreds of requests, show activity again after the 3 s request window); meanwhile the trusted peer mines 2-5 blocks; each batch runs in a child process; oracle: the node process survives, reaches the trusted peer's tip within 8 s after the scripts, holds exactly the trusted chain, delivers nothing that only an unverified peer supplied, and reports nothing only an untrusted peer supplied as safe or confirmed; non-trivial = an untrusted peer got as far as the header request; distinct by plan hash"
 
 func c12lNontrivial(f map[string]bool) bool { return f["untrusted-handshake-reached"] }
 
@@ -627,6 +745,9 @@ func c12lChild(plans []*C12LPlan) (results []c12lResult, died bool, stderrTail s
 	var errBuf bytes.Buffer
 	cmd.Stderr = &errBuf
 	cmd.Stdout = &errBuf
+	if os.Getenv("VERIF_C12L_DEBUG") != "" {
+		cmd.Stderr = os.Stderr
+	}
 	_ = cmd.Run()
 	raw, err := os.ReadFile(out)
 	if err == nil && json.Unmarshal(raw, &results) == nil && len(results) == len(plans) {
